@@ -618,7 +618,7 @@ func (rc *runCtx) verdict(results []batchResult) int {
 	summaries := map[string]*unitSummary{}
 	var order []string
 	var samples []interface{}
-	var inconclusive []string
+	inconclusive := []string{}
 	var notes []string
 	raceSigs := map[string]raceBlock{}
 	totalRaceBlocks := 0
